@@ -3,6 +3,7 @@
 // placements) x loop enabled/disabled x counts -1,0..4 x hooks registered before/after loading (and across reset /
 // emulator switch / second load). Reference: Appendix A.3 of DESIGN.md.
 #include "vseq.hpp"
+#include "vconv.hpp"
 
 static const char *harness_name() { return "c09_loops"; }
 static void harness_init() { default_bank(); }
@@ -50,8 +51,102 @@ struct LoopUD { Capture *cap; int which; long wrong; };
 static void c09_on_start(void *ud) { LoopUD *u = (LoopUD *)ud; if(u->which != 1) u->wrong++; Capture::on_loop_start(u->cap); }
 static void c09_on_end(void *ud) { LoopUD *u = (LoopUD *)ud; if(u->which != 2) u->wrong++; Capture::on_loop_end(u->cap); }
 
+// ------------------------------------------------------------------------------------------
+// stage xmi: the song of a multi-song XMI file has no loop markers, so the whole song is the loop body. Whichever way it became the
+// current song (chosen before the load, or with opn2_selectSongNum afterwards), with looping enabled and count N its events are
+// delivered N times in total, then the end of the song is reported; callbacks once per pass.
+// ------------------------------------------------------------------------------------------
+static void stage_xmi(Case &c)
+{
+    Rng &r = c.rng;
+    XmiFile x = gen_xmi(r, r.range(1, 3), 14);
+    const int nsongs = (int)x.songs.size();
+    const bool loop_en = r.chance(0.8);
+    const int count_api = r.pick((const int[]){-1, 0, 1, 2, 3, 4, 2, 3});
+    const long passes = !loop_en ? 1 : (count_api < 0 ? -1 : std::max(count_api, 1));
+    const int presel = r.chance(0.5) ? -1 : (int)r.below((uint32_t)nsongs);
+    const int later = r.chance(0.65) ? (int)r.below((uint32_t)nsongs) : -1;
+    const int how = (int)r.below(3);       // selection right after the load / after part of the first song / after its end (finite counts)
+    OPN2_MIDIPlayer *d = NULL;
+    API("opn2_init", d = opn2_init(8000));
+    if(!d) { c.violation("oracle:init-failed", "opn2_init returned NULL"); return; }
+    int rc = 0;
+    API("opn2_setNumChips", rc = opn2_setNumChips(d, 2));
+    API("opn2_switchEmulator", rc = opn2_switchEmulator(d, OPNMIDI_EMU_GENS));
+    { ExactBuf bk(default_bank()); API("opn2_openBankData", rc = opn2_openBankData(d, bk.p, (long)bk.n)); }
+    Capture cap; cap.attach(d);
+    LoopUD ud_start = {&cap, 1, 0}, ud_end = {&cap, 2, 0};
+    API("opn2_setLoopEnabled", opn2_setLoopEnabled(d, loop_en ? 1 : 0));
+    API("opn2_setLoopCount", opn2_setLoopCount(d, count_api));
+    API("opn2_setLoopStartHook", opn2_setLoopStartHook(d, &c09_on_start, &ud_start)); API("opn2_setLoopEndHook", opn2_setLoopEndHook(d, &c09_on_end, &ud_end));
+    if(presel >= 0) API("opn2_selectSongNum", opn2_selectSongNum(d, presel));
+    { ExactBuf in(x.bytes); API("opn2_openData", rc = opn2_openData(d, in.p, (unsigned long)in.n)); }
+    std::string ctx = vfmt("XMI %zu bytes, %d songs, chosen before the load %d, opn2_selectSongNum afterwards %d (%s); loop %s count %d", x.bytes.size(), nsongs, presel, later,
+                           how == 0 ? "at once" : how == 1 ? "after part of the first song" : "after the end of the first song", loop_en ? "on" : "off", count_api);
+    if(rc != 0) { c.violation("oracle:C09:wellformed-file-rejected", vfmt("generated XMI rejected: %s; %s", opn2_errorInfo(d), ctx.c_str())); API("opn2_close", opn2_close(d)); return; }
+    int sel = presel >= 0 ? presel : 0;
+    if(later >= 0)
+    {
+        if(how)
+        {
+            double len0 = 0; API("opn2_totalTimeLength", len0 = opn2_totalTimeLength(d));
+            const bool whole = how == 2 && passes >= 0;
+            double limit = whole ? 1e18 : r.unit() * len0 * (double)(passes < 0 ? 2 : passes), dly = 0, acc = 0; long g2 = 0;
+            while(g2++ < 200000 && acc <= limit && cap.ev.size() < 20000)
+            {
+                double nd = 0; API("opn2_tickEvents", nd = opn2_tickEvents(d, dly, 1e-6)); acc += dly; dly = nd;
+                int e0 = 0; API("opn2_atEnd", e0 = opn2_atEnd(d)); if(e0) break;
+            }
+        }
+        API("opn2_selectSongNum", opn2_selectSongNum(d, later)); sel = later;
+        count("xmi_songs_selected_after_the_load");
+    }
+    cap.clear();
+    const XmiSong &s = x.songs[(size_t)sel];
+    uint64_t last_tick = 0; for(size_t i = 0; i < s.expect.size(); i++) last_tick = std::max(last_tick, s.expect[i].tick);
+    // judged on the note-ons: the converter adds controllers of its own (volume at a channel's first use), never notes
+    size_t n_inner = 0, n_last = 0; for(size_t i = 0; i < s.expect.size(); i++) if((s.expect[i].status >> 4) == 9 && s.expect[i].d1 > 0) { if(s.expect[i].tick < last_tick) n_inner++; else n_last++; }
+    const size_t n_all = n_inner + n_last;
+    if(n_inner < 2) { c.inconclusive = true; count("inconclusive_song_too_short"); API("opn2_close", opn2_close(d)); return; }
+    const long watch = passes < 0 ? 6 : passes;
+    const size_t max_events = (size_t)((watch + 2) * (long)(s.expect.size() + 40) + 400);
+    double delay = 0; long guard = 0; bool ended = false; size_t chan_events = 0, seen = 0;
+    while(guard++ < 400000)
+    {
+        double nd = 0; API("opn2_tickEvents", nd = opn2_tickEvents(d, delay, 1e-6));
+        for(; seen < cap.ev.size(); seen++) if(cap.ev[seen].type == 0x9) chan_events++;
+        int end = 0; API("opn2_atEnd", end = opn2_atEnd(d));
+        if(end) { ended = true; break; }
+        if(passes < 0 && chan_events >= 7 * n_all) break;
+        if(cap.ev.size() > max_events) break;
+        delay = nd;
+    }
+    // note-ons delivered: every one in front of the last tick once per pass, those of the last tick (= loop end) 1..N times
+    const size_t lo = (size_t)watch * n_inner + (n_last ? n_last : 0);
+    if(passes >= 0)
+    {
+        if(!ended) c.violation("oracle:C09:song-does-not-end:xmi", vfmt("no end of song after %zu note-ons (%ld passes of %zu note-ons demanded); %s", chan_events, passes, n_all, ctx.c_str()));
+        else
+        {
+            if(chan_events < lo || chan_events > (size_t)passes * n_all)
+                c.violation(chan_events < lo ? "oracle:C09:event-delivered-too-few-times:xmi" : "oracle:C09:event-delivered-too-many-times:xmi",
+                            vfmt("%zu note-ons delivered, %ld passes of %zu note-ons (%zu at the last tick) demanded; %s", chan_events, passes, n_all, n_last, ctx.c_str()));
+            if(cap.loop_end_cb != passes) c.violation("oracle:C09:loop-end-callback-count:xmi", vfmt("loop-end callback fired %ld times, %ld arrivals at the song end; %s", cap.loop_end_cb, passes, ctx.c_str()));
+            if(cap.loop_start_cb != passes) c.violation("oracle:C09:loop-start-callback-count:xmi", vfmt("loop-start callback fired %ld times, %ld passes through the song begin; %s", cap.loop_start_cb, passes, ctx.c_str()));
+        }
+    }
+    else if(ended) c.violation("oracle:C09:endless-loop-ended:xmi", vfmt("end of song reported after %zu note-ons with count -1; %s", chan_events, ctx.c_str()));
+    if(ud_start.wrong || ud_end.wrong) c.violation("oracle:C09:callback-user-data-mixed-up", ctx);
+    count("xmi_events_delivered", (long long)chan_events);
+    API("opn2_close", opn2_close(d));
+    c.nontrivial = true;
+    cover(vfmt("xmi|songs%d|pre%d|later%d|how%d|loop%d|count%d", nsongs, presel >= 0, later >= 0, later >= 0 ? how : 0, loop_en, count_api));
+    c.sample(std::string("{\"stage\":\"xmi\",\"context\":") + jstr(ctx) + vfmt(",\"channel_events\":%zu,\"ended\":%d}", chan_events, (int)ended));
+}
+
 static void run_case(Case &c)
 {
+    if(g_w.stage == "xmi") { stage_xmi(c); return; }
     Rng &r = c.rng;
     SongOpts so; so.max_tracks = 4; so.max_events = 30; so.tempo_changes = r.chance(0.5); so.lone_eot = true; so.force_division = r.chance(0.5) ? 96 : 0; so.allow_cc_special = false;
     Song song = gen_song(r, so);
